@@ -46,7 +46,7 @@ func (e *Engine) doCall(st *State, fr *frame, in *ssa.Call, depth int) []Outcome
 			iname = fmt.Sprintf("invoke:%s@%d", name, n)
 		}
 		res := e.appOfType(iname, rt, append([]Val{recv}, args...)...)
-		st.events = append(st.events, Event{Kind: "invoke", Fn: name, Recv: recv, Args: args, Res: res, Pos: in.Pos()})
+		st.addEvent(Event{Kind: "invoke", Fn: name, Recv: recv, Args: args, Res: res, Pos: in.Pos()})
 		return []Outcome{valueOutcome(st, res)}
 	}
 
@@ -67,7 +67,7 @@ func (e *Engine) doCall(st *State, fr *frame, in *ssa.Call, depth int) []Outcome
 		return e.staticCall(st, f.Fn, args, f.Bindings, rt, in, depth)
 	case *Opaque:
 		res := e.appOfType("call:"+f.Key, rt, args...)
-		st.events = append(st.events, Event{Kind: "call", Fn: f.Key, Args: args, Res: res, Pos: in.Pos()})
+		st.addEvent(Event{Kind: "call", Fn: f.Key, Args: args, Res: res, Pos: in.Pos()})
 		return []Outcome{valueOutcome(st, res)}
 	}
 	return e.stuck(st, "call of "+valKey(fv), in.Pos())
@@ -99,6 +99,9 @@ func (e *Engine) staticCall(st *State, fn *ssa.Function, args, bindings []Val, r
 		return outs
 	}
 	if isPrismFn(fn) && len(fn.Blocks) > 0 && (e.Opaque == nil || !e.Opaque(fn)) {
+		if e.TraceCalls != nil && e.TraceCalls(fn) {
+			st.addEvent(Event{Kind: "trace", Fn: shortFn(fn), Args: args, Pos: in.Pos()})
+		}
 		return e.inline(st, fn, args, bindings, depth)
 	}
 	short := shortFn(fn)
@@ -113,7 +116,7 @@ func (e *Engine) staticCall(st *State, fn *ssa.Function, args, bindings []Val, r
 		cname = fmt.Sprintf("call:%s@%d", short, n)
 	}
 	res := e.appOfType(cname, rt, args...)
-	st.events = append(st.events, Event{Kind: "call", Fn: short, Args: args, Res: res, Pos: in.Pos()})
+	st.addEvent(Event{Kind: "call", Fn: short, Args: args, Res: res, Pos: in.Pos()})
 	return []Outcome{valueOutcome(st, res)}
 }
 
@@ -189,7 +192,7 @@ func (e *Engine) model(st *State, name string, fn *ssa.Function, args []Val, rt 
 	case "(*sync.Once).Do":
 		return one(nil)
 	case "(*strings.Builder).WriteByte":
-		st.events = append(st.events, Event{Kind: "call", Fn: "(*strings.Builder).WriteByte", Args: args, Pos: in.Pos()})
+		st.addEvent(Event{Kind: "call", Fn: "(*strings.Builder).WriteByte", Args: args, Pos: in.Pos()})
 		return one(&ErrVal{IsNil: true})
 	case "(*strings.Builder).Len":
 		n := int64(0)
@@ -225,7 +228,7 @@ func (e *Engine) model(st *State, name string, fn *ssa.Function, args []Val, rt 
 			}
 		}
 		st.mem[c] = a
-		st.events = append(st.events, Event{Kind: "call", Fn: name, Args: args, Res: &Ptr{Cell: c}, Pos: in.Pos()})
+		st.addEvent(Event{Kind: "call", Fn: name, Args: args, Res: &Ptr{Cell: c}, Pos: in.Pos()})
 		return one(&Ptr{Cell: c})
 	case "bytes.NewReader":
 		sl, ok := args[0].(*SliceVal)
@@ -264,11 +267,11 @@ func (e *Engine) model(st *State, name string, fn *ssa.Function, args []Val, rt 
 			ok := st
 			if e.FailReads {
 				bad := st.clone()
-				bad.events = append(bad.events, Event{Kind: "readfail", Fn: "io.CopyN", Args: []Val{pos, n}, Pos: in.Pos()})
+				bad.addEvent(Event{Kind: "readfail", Fn: "io.CopyN", Args: []Val{pos, n}, Pos: in.Pos()})
 				outs = append(outs, valueOutcome(bad, Tuple{e.A.App("short", types.Typ[types.Int64], pos), &ErrVal{IsNil: false, Desc: "io.CopyN failed"}}))
 			}
 			ok.pos[rd.S] = pos.Add(n)
-			ok.events = append(ok.events, Event{Kind: "copyn", Fn: "io.CopyN", Recv: args[0], Args: []Val{content, pos, n}, Pos: in.Pos()})
+			ok.addEvent(Event{Kind: "copyn", Fn: "io.CopyN", Recv: args[0], Args: []Val{content, pos, n}, Pos: in.Pos()})
 			outs = append([]Outcome{valueOutcome(ok, Tuple{n, &ErrVal{IsNil: true}})}, outs...)
 			return outs, true
 		}
@@ -329,7 +332,7 @@ func (e *Engine) readerMethod(st *State, rd *ReaderVal, name string, args []Val,
 			if l := e.streamLen(rd.S); l != nil {
 				bad.conds = append(bad.conds, &BoolVal{Op: ">=", A: pos, B: l})
 			}
-			bad.events = append(bad.events, Event{Kind: "readfail", Fn: "ReadByte", Args: []Val{pos}, Pos: in.Pos()})
+			bad.addEvent(Event{Kind: "readfail", Fn: "ReadByte", Args: []Val{pos}, Pos: in.Pos()})
 			outs = append(outs, valueOutcome(bad, Tuple{formInt(0), &ErrVal{IsNil: false, Desc: "ReadByte failed"}}))
 		}
 		if l := e.streamLen(rd.S); l != nil {
@@ -361,7 +364,7 @@ func (e *Engine) readInto(st *State, rd *ReaderVal, bufv Val, rt types.Type, wha
 	var outs []Outcome
 	if e.FailReads {
 		bad := st.clone()
-		bad.events = append(bad.events, Event{Kind: "readfail", Fn: what, Args: []Val{pos, buf.Len}, Pos: in.Pos()})
+		bad.addEvent(Event{Kind: "readfail", Fn: what, Args: []Val{pos, buf.Len}, Pos: in.Pos()})
 		outs = append(outs, valueOutcome(bad, Tuple{e.A.App("short", types.Typ[types.Int], pos), &ErrVal{IsNil: false, Desc: what + " failed"}}))
 	}
 	n := buf.Len
@@ -381,7 +384,7 @@ func (e *Engine) readInto(st *State, rd *ReaderVal, bufv Val, rt types.Type, wha
 		}
 	} else {
 		content := &Opaque{Key: fmt.Sprintf("%s[%s:+%s]", rd.S.Name, pos.Key(), n.Key()), Fn: "bytes", Args: []Val{&StrVal{S: rd.S.Name}, pos, n}}
-		st.events = append(st.events, Event{Kind: "readinto", Fn: what, Recv: bufv, Args: []Val{content, pos, n}, Pos: in.Pos()})
+		st.addEvent(Event{Kind: "readinto", Fn: what, Recv: bufv, Args: []Val{content, pos, n}, Pos: in.Pos()})
 	}
 	st.pos[rd.S] = pos.Add(n)
 	outs = append([]Outcome{valueOutcome(st, Tuple{n, &ErrVal{IsNil: true}})}, outs...)
@@ -558,7 +561,7 @@ func (e *Engine) summariseLoop(st *State, fr *frame, b *ssa.BasicBlock, ifi *ssa
 			st.pos[s] = b0.Add(trips.Mul(formInt(d)))
 		}
 	}
-	st.events = append(st.events, Event{Kind: "loop-summary", Fn: "loop", Args: []Val{first, limit, stepV, k}, Pos: e.condPos(ifi)})
+	st.addEvent(Event{Kind: "loop-summary", Fn: "loop", Args: []Val{first, limit, stepV, k}, Pos: e.condPos(ifi)})
 	st.events = append(st.events, loopStores...)
 	for _, ls := range loopStores {
 		if ls.Kind == "loop-store" {
